@@ -227,14 +227,23 @@ def rule_r11_table(ctx: Ctx) -> None:
     outs = fe.read_many(jobs)
     ctx.count(len(jobs))
     wrongly_accepted, wrongly_rejected, wrong_class = [], [], []
+    undecided = []
     for (label, ok, files, root, kw), o in zip(table, outs):
         shown = {k: v for k, v in files.items() if k not in DEPS}
+        if o.get("too_large"):
+            # the evaluated code enumerates a collection whose size follows a number in the definition: neither an acceptance nor
+            # a rejection was seen - what that costs is C16's question, not this rule's
+            undecided.append(label)
+            continue
         if o["raised"] is None and not ok:
             wrongly_accepted.append({"case": label, "files": shown, "arguments": kw})
         elif o["raised"] is not None and ok:
             wrongly_rejected.append({"case": label, "files": shown, "arguments": kw, "raised": "%s at %s:%s" % (o["raised"], o["path"], o["line"])})
         elif o["raised"] is not None and not is_invalid_definition(ctx, o["raised"]):
             wrong_class.append({"case": label, "files": shown, "raised": o["raised"] + (" (%s)" % o.get("wrapped") if o.get("wrapped") else "")})
+    if len(undecided) * 20 > len(table):
+        raise AnalysisError("%d of %d definitions of the table cannot be read to the end (enumeration too large): %s" % (len(undecided), len(table), undecided[:3]))
+    ctx.analysed["C05.R11.undecided"] = undecided
     where = "pydsdl/_data_type_builder.py"
     ctx.check(not wrongly_accepted, "read_namespace over the table", "%d definitions that break a static rule are rejected" % (len(table) - n_ok), "a definition that breaks a static rule of DSDL is accepted: %s" % "; ".join("%s %r" % (b["case"], b["files"]) for b in wrongly_accepted[:4]), where, wrongly_accepted[:12])
     ctx.check(not wrongly_rejected, "read_namespace over the table", "%d definitions that obey the static rules are accepted" % n_ok, "a definition that obeys the static rules of DSDL is rejected: %s" % "; ".join("%s %r: %s" % (b["case"], b["files"], b["raised"]) for b in wrongly_rejected[:4]), where, wrongly_rejected[:12])
